@@ -23,6 +23,7 @@ type Acc struct {
 	Samples   []json.RawMessage `json:"samples"`   // a few complete cases
 	FP        uint64            `json:"fp"`        // fingerprint over all runs (determinism self-test)
 	Truncated bool              `json:"truncated"` // stopped by the wall-clock safety cap
+	Index     int               `json:"-"`         // index of the run being executed (set by the driver)
 }
 
 func NewAcc() *Acc {
@@ -120,7 +121,7 @@ func IDs() []string {
 	return out
 }
 
-var allShapes = []string{"doc", "flat", "nested"}
+var allShapes = []string{"doc", "flat", "nested", "person", "rep3"}
 
 // writerCandidates lifts ShrinkWriter to cases.
 func writerCandidates(c *core.Case) []*core.Case {
